@@ -177,7 +177,7 @@ def table_history_shard(shard):
                 else:
                     if arch.startswith("riscv"):
                         exp = []
-                        if arch != "riscv":
+                        if arch.startswith("riscv-wb"):
                             # what the backing store holds right now (C12 decides whether that is what it should hold)
                             flat = {a: int(v) for a, v in rv.backing_memory(sim).memory_file.items()}
                             if any(a in flat and flat[a] != op_v for a, op_v in written.items()):
